@@ -377,7 +377,7 @@ def gen_c22(seed, size="quick"):
     for i in range(nrules):
         n = p.fresh("ai")
         c = p.fresh("ac")
-        shape = r.randrange(4)
+        shape = r.randrange(7)
         rep = r.choice(["", "btree", "brie"])
         if shape == 0:
             body = "e1(x,y), x != y"
@@ -397,6 +397,27 @@ def gen_c22(seed, size="quick"):
             head = "%s(x,autoinc(),y)"
             sib = "%s(x,y,w)"
             sib_cols = [("x", "number"), ("y", "number"), ("w", "number")]
+        elif shape == 4:
+            k = r.randrange(0, 6)  # outermost index scan (constant in the first atom)
+            body = "e1(%d,y), e1(y,z)" % k
+            head_cols = [("y", "number"), ("z", "number"), ("id", "number")]
+            head = "%s(y,z,autoinc())"
+            sib = "%s(y,z)"
+            sib_cols = [("y", "number"), ("z", "number")]
+        elif shape == 5:
+            k = r.randrange(0, 6)  # outermost range index scan
+            body = "e1(x,y), x > %d, e2(y,_,w)" % k
+            head_cols = [("id", "number"), ("x", "number"), ("w", "number")]
+            head = "%s(autoinc(),x,w)"
+            sib = "%s(x,y,w)"
+            sib_cols = [("x", "number"), ("y", "number"), ("w", "number")]
+        elif shape == 6:
+            # the counter value is used twice in one head and feeds a later stratum
+            body = "e1(x,y), x != y"
+            head_cols = [("x", "number"), ("id", "number"), ("y", "number")]
+            head = "%s(x,autoinc(),y)"
+            sib = "%s(x,y)"
+            sib_cols = [("x", "number"), ("y", "number")]
         else:
             body = "n1(x), e1(x,y), y > x"
             head_cols = [("id", "number"), ("x", "number"), ("y", "number")]
